@@ -74,6 +74,9 @@ PM_INV_HYPOTHESES = [
     'if resolution > 0: every time-signature, key-signature, tempo, pitch-bend, control-change time >= 0 and every '
     'note has 0 <= start <= end (tick table is non-decreasing from 0; pretty_midi.Note rejects end < start)',
     'NOT needed: any bound on the time-signature denominator (2^255 is converted to MIDIConversionError) or on key_number',
+    'scope of constructed (op pm) cases: only objects inside pm_ctorb = what pretty_midi\'s TimeSignature / KeySignature / '
+    'Note constructors enforce (positive numerator and denominator, key 0..23, their times >= 0, note end >= start); '
+    'pm_ctorb is monitored on every object that parses',
 ]
 
 
@@ -127,6 +130,18 @@ def pm_inv_py(pm):
                all(all(0 <= n[0] <= n[1] for n in i[3]) and all(b[0] >= 0 for b in i[4]) and
                    all(c[0] >= 0 for c in i[5]) for i in insts))
     return [int(rng_ok), int(time_ok), int(rng_ok and (res <= 0 or time_ok))]
+
+
+def pm_ctor_ok(pm):
+    """What pretty_midi's own container constructors enforce (TimeSignature: numerator, denominator positive ints,
+    time >= 0; KeySignature: 0 <= key_number < 24, time >= 0; Note: end >= start).  Every object the byte parser (or
+    any user of the public constructors) can produce satisfies it; a PrettyMIDI object violating it is not something
+    midi_to_note_sequence can be asked about, so constructed objects outside it are not generated, not compared and
+    not judged.  Mirrors Model/MidiConvert.pm_ctorb; monitored on every object that parses."""
+    res, tsigs, keys, tempos, insts = pm
+    return (all(t[1] >= 1 and t[2] >= 1 and t[0] >= 0 for t in tsigs) and
+            all(0 <= k[1] <= 23 and k[0] >= 0 for k in keys) and
+            all(n[0] <= n[1] for i in insts for n in i[3]))
 
 
 def wf_violations(ns):
@@ -631,6 +646,8 @@ def _gen_class(c):
 
 def _register(cs):
     for c in cs:
+        if _skipped(c):
+            continue
         k = case_key(c)
         if k not in _PENDING and k not in _CACHE:
             _GENS[_gen_class(c)] = _GENS.get(_gen_class(c), 0) + 1
@@ -1132,11 +1149,13 @@ def gen_pm(rng, wild):
     def maybe(v, alts, p=0.12):
         return rng.choice(alts) if wild and rng.random() < p else v
     res = maybe(rng.choice([96, 220, 480, 1, 32767]), [0, -1, -6360, -32768, INT32_MAX, INT32_MAX + 1, 2 ** 40, INT32_MIN - 1], 0.2)
-    tsigs = [[maybe(_t(rng), [ford(-1.0), ford(-1e-300)], 0.05),
-              maybe(rng.randint(1, 255), [0, -1, INT32_MAX, INT32_MAX + 1, INT32_MIN, INT32_MIN - 1, 2 ** 70]),
-              maybe(2 ** rng.randint(0, 6), [2 ** 30, 2 ** 31, 2 ** 31 - 1, 2 ** 255, 0, -1, INT32_MIN, INT32_MIN - 1, 3], 0.15)]
+    # only values pretty_midi's container constructors accept (pm_ctor_ok): positive numerator / denominator, key 0..23,
+    # non-negative times for time and key signatures, note end >= start
+    tsigs = [[_t(rng),
+              maybe(rng.randint(1, 255), [1, 255, 256, INT32_MAX, INT32_MAX + 1, 2 ** 70]),
+              maybe(2 ** rng.randint(0, 6), [1, 3, 2 ** 30, 2 ** 31, 2 ** 31 - 1, 2 ** 32, 2 ** 255, 2 ** 31 + 1], 0.15)]
              for _ in range(rng.randint(0, 3))]
-    keys = [[maybe(_t(rng), [ford(-2.0)], 0.05), maybe(rng.randint(0, 23), [24, 35, 36, -1, -12, -13, 2 ** 40, 12, 11, 0, 23], 0.2)]
+    keys = [[_t(rng), maybe(rng.randint(0, 23), [12, 11, 0, 23], 0.2)]
             for _ in range(rng.randint(0, 3))]
     tempos = [[maybe(_t(rng), [ford(-0.5)], 0.05), ford(rng.choice([120.0, 60.0, 33.3, 1e-3, 1e9]))] for _ in range(rng.randint(1, 3))]
     insts = []
@@ -1148,7 +1167,7 @@ def gen_pm(rng, wild):
             s = rng.randint(0, 80) / 4.0 + rng.choice([0, 0, 1e-7])
             e = s + rng.choice([0.0, 0.25, 1.0, 7.5])
             if wild and rng.random() < 0.06:
-                s, e = rng.choice([(e + 1, s), (-1.0, 0.5), (-2.0, -1.0), (-0.0, 0.0)])
+                s, e = rng.choice([(-1.0, 0.5), (-2.0, -1.0), (-0.0, 0.0), (-3.0, -3.0)])
             notes.append([ford(s), ford(e), maybe(rng.randint(0, 127), [128, -1, 2 ** 31, 255, INT32_MIN - 1], 0.06),
                           maybe(rng.randint(1, 127), [0, 128, -1, 2 ** 31, INT32_MAX], 0.06)])
         bends = [[maybe(_t(rng), [ford(-3.0)], 0.05), maybe(rng.randint(-8192, 8191), [INT32_MAX, INT32_MAX + 1, INT32_MIN, INT32_MIN - 1, 2 ** 64], 0.08)]
@@ -1275,17 +1294,17 @@ def corpus():
     inst = lambda **kw: [kw.get('prog', 0), 0, kw.get('name', []), kw.get('notes', []), kw.get('bends', []), kw.get('ccs', [])]
     for rec in (base(res=2 ** 31), base(res=0), base(res=-6360, tempos=[[z, ford(120.0)], [ford(-0.5), ford(100.0)]]),
                 base(tsigs=[[z, 2 ** 31, 4]]), base(tsigs=[[z, 4, 2 ** 31]]), base(tsigs=[[z, 4, 2 ** 255]]),
-                base(tsigs=[[z, 2 ** 31, 2 ** 31]]), base(tsigs=[[z, 4, -2 ** 31 - 1]]),
-                base(keys=[[z, 24]]), base(keys=[[z, -1]]), base(keys=[[z, 23]]), base(keys=[[z, 2 ** 40]]),
+                base(tsigs=[[z, 2 ** 31, 2 ** 31]]), base(tsigs=[[z, 1, 1]]), base(tsigs=[[z, 4, 2 ** 31 - 1]]),
+                base(keys=[[z, 0]]), base(keys=[[z, 11]]), base(keys=[[z, 12]]), base(keys=[[z, 23]]),
                 base(insts=[inst(prog=2 ** 31, notes=[[z, z, 60, 60]])]), base(insts=[inst(name=[0xD800])]),
                 base(insts=[inst(notes=[[z, z, 128, 60]])]), base(insts=[inst(notes=[[z, z, 2 ** 31, 60]])]),
-                base(insts=[inst(notes=[[z, z, 60, 2 ** 31]])]), base(insts=[inst(notes=[[ford(2.0), ford(1.0), 60, 60]])]),
+                base(insts=[inst(notes=[[z, z, 60, 2 ** 31]])]),
                 base(insts=[inst(notes=[[ford(-2.0), ford(-1.0), 60, 60]])]),
                 base(insts=[inst(notes=[[ford(1.0), ford(3.0), 60, 60], [ford(1.0), ford(2.0), 61, 60]])]),
                 base(insts=[inst(bends=[[z, 2 ** 31]])]), base(insts=[inst(ccs=[[z, 2 ** 31, 0]])]),
                 base(insts=[inst(ccs=[[z, 0, -2 ** 31 - 1]])]), base(insts=[inst(ccs=[[ford(-1.0), 0, 0]], notes=[[z, z, 1, 1]])]),
-                base(tsigs=[[z, 2 ** 31, 4]], keys=[[z, 24]]), base(tsigs=[[z, 4, 2 ** 31]], keys=[[z, 24]], res=2 ** 31),
-                base(keys=[[z, 24]], insts=[inst(name=[0xDC00])])):
+                base(tsigs=[[z, 2 ** 31, 4]], keys=[[z, 23]]), base(tsigs=[[z, 4, 2 ** 31]], keys=[[z, 13]], res=2 ** 31),
+                base(tsigs=[[z, 4, 2 ** 40]], insts=[inst(name=[0xDC00])])):
         cs.append({'op': 'pm', 'gen': 'corpus-pm', 'input': rec})
     import random as _r
     cs += order_cases(_r.Random(16), cs, 3)
@@ -1393,7 +1412,13 @@ def _res_canon(r):
     return ['EXC', r[1]]
 
 
+def _skipped(case):
+    return case['op'] == 'pm' and not pm_ctor_ok(case['input'])
+
+
 def impl(case):
+    if _skipped(case):
+        return ['SKIPPED-NOT-CONSTRUCTIBLE']
     resp = _response(case)
     if 'resource' in resp:
         return ['RESOURCE', resp['resource']]
@@ -1405,6 +1430,8 @@ def impl(case):
 
 
 def model_input(case):
+    if _skipped(case):
+        return None
     resp = _response(case)
     if 'resource' in resp or resp.get('op') == 'order' or not resp.get('parsed') or resp.get('types'):
         return None
@@ -1420,7 +1447,7 @@ def model_output(case, out):
         r = ['EXC', EXN_NAMES.get(res[1], 'code%r' % (res[1],))]
     else:
         r = ['BAD-MODEL-OUTPUT', res]
-    return ['PARSED', [rb, tb, ib], r, possible]
+    return ['PARSED', [rb, tb, ib], r, possible, out[5] if len(out) > 5 else None]
 
 
 def equal(case, io, mo):
@@ -1429,8 +1456,10 @@ def equal(case, io, mo):
     order in which independent repeated fields are filled, which C16 does not constrain: the implementation's exception
     class must then be one of the classes that can surface over all field orders (Model/MidiConvert.exn_possible;
     Proofs: convert's own error is always in that set and the set is empty iff convert succeeds)."""
-    if not (isinstance(mo, list) and len(mo) == 4 and mo[0] == 'PARSED'):
+    if not (isinstance(mo, list) and len(mo) == 5 and mo[0] == 'PARSED'):
         return False
+    if mo[4] != 1:
+        return False       # Coq's pm_ctorb disagrees with pm_ctor_ok (constructed cases are filtered, parsed ones monitored)
     flags, mres, possible = mo[1], mo[2], mo[3]
     if mres[0] == 'EXC' and (possible is None or mres[1] not in possible):
         return False                                  # model inconsistent with its own set: fail closed
@@ -1454,6 +1483,8 @@ def _statement(res, gen, op, neg_res, variant):
 
 def oracle(case, io):
     """C16's statement evaluated on what the implementation did."""
+    if _skipped(case):
+        return None
     resp = _response(case)
     gen = case.get('gen', '?')
     if io[0] == 'RESOURCE':
@@ -1531,8 +1562,9 @@ def oracle(case, io):
     if resp.get('parsed'):
         if resp.get('types'):
             return {'kind': 'pm-attribute-type-unexpected', 'what': resp['types'], 'gen': gen}
-        if not inv[2]:
-            return {'kind': 'pm-invariant-violated', 'range_ok': inv[0], 'time_ok': inv[1], 'gen': gen}
+        if not inv[2] or not pm_ctor_ok(resp['pm']):
+            return {'kind': 'pm-invariant-violated', 'range_ok': inv[0], 'time_ok': inv[1],
+                    'constructor_invariants_ok': int(pm_ctor_ok(resp['pm'])), 'gen': gen}
         obj = resp['obj']
         if obj != 'same' and _res_canon(obj) != _res_canon(res):
             if not (res[0] == 'EXC' and 'MemoryError' in res[2]):
@@ -1545,7 +1577,7 @@ def oracle(case, io):
 
 def nontrivial(case, io):
     if case['op'] in ('pm', 'order'):
-        return io[0] != 'RESOURCE'
+        return io[0] not in ('RESOURCE', 'SKIPPED-NOT-CONSTRUCTIBLE')
     if io[0] == 'PARSED':
         resp = _response(case)
         pm = resp['pm']
